@@ -226,14 +226,27 @@ def generate(rng, tier):
     for st in W_STYLES:
         for n in (3, 4):
             add("complete-%d:%s" % (n, st), g_complete(rng, n, st))
-    rep = 6 if th else 1
+    # exhaustive small domains: every graph on 4 vertices with values in {1,2} (thorough: {1,2,3}; and every unweighted
+    # graph on 5 vertices)
+    prs4 = list(itertools.combinations(range(4), 2))
+    for ws in itertools.product(range(0, 4 if th else 3), repeat=6):
+        es = [(u, v, w) for (u, v), w in zip(prs4, ws) if w]
+        if es:
+            add("exhaustive-4", es, rl=False)
+    if th:
+        prs5 = list(itertools.combinations(range(5), 2))
+        for ws in itertools.product((0, 1), repeat=10):
+            es = [(u, v, w) for (u, v), w in zip(prs5, ws) if w]
+            if es:
+                add("exhaustive-5-unweighted", es, rl=False)
+    rep = 10 if th else 3
     for _ in range(rep * 10):
         for st in W_STYLES:
             add("complete-5:" + st, g_complete(rng, 5, st))
     for _ in range(rep * 5):
         for st in W_STYLES:
             add("complete-6:" + st, g_complete(rng, 6, st))
-    for _ in range(rep * 2):
+    for _ in range((rep + 2) // 3 * 2):
         for st in ("distinct", "two", "few"):
             add("complete-7:" + st, g_complete(rng, 7, st), budget=130)
     for n in (8, 9, 10):
@@ -244,7 +257,7 @@ def generate(rng, tier):
         n = rng.randint(4, 10)
         p = rng.choice((0.2, 0.3, 0.4, 0.5, 0.6, 0.7, 0.85))
         add("sparse-%d" % n, g_sparse(rng, n, p, rng.choice(W_STYLES)), budget=72)
-    for _ in range(rep * 6):
+    for _ in range((rep + 2) // 3 * 6):
         n = rng.randint(8, 10)
         add("dense-%d" % n, g_sparse(rng, n, rng.choice((0.7, 0.8, 0.9)), rng.choice(W_STYLES)), budget=110)
     # Rips graphs (squared integer distances, many ties on small grids)
@@ -503,6 +516,8 @@ def check(ctx, replay=None):
     res.samples = [{"family": cases[i][0], "edges": [list(e) for e in cases[i][1]]} for i in sorted(ctx.rng.sample(range(len(cases)), min(8, len(cases))))]
     res.count("build-variants", len(VARIANTS))
     res.notes.append("build variants: " + ", ".join(t for t, _ in VARIANTS) + " (" + VAR_DESC + ")")
+    res.notes.append("exhaustive sub-domain this run: every non-empty graph on 4 vertices with edge values in %s%s" % (
+        "{1,2,3}" if ctx.tier == "thorough" else "{1,2}", "; every non-empty unweighted graph on 5 vertices" if ctx.tier == "thorough" else ""))
     res.notes.append("the model is additionally run on 2 random admissible tie orders per case; its output must keep the diagram")
     return core.finish(ctx, None, res, TRUSTED, ASSUMPTIONS, LEVEL,
                        "cd /verif/coq && make -f Makefile.coq Properties_C12.vo  (coqc 8.16.1; Print Assumptions after every theorem)",
